@@ -86,7 +86,7 @@ class MapV:
             t = z3.Function(self.path + ".val", kt.sort(), z3.IntSort())(kt)
             val = SymV(ex, "%s[%s]" % (self.path, ks), vty)
             val._tag = t
-            ex.domain.append(z3.And(t >= 0, t < len(ex.enums[b])))
+            ex.domain.append(z3.Or([t == d for d in ex.discr_of(b, ex.enums[b])]))
         else:
             raise Unsupported("map value type %s" % vty)
         self.memo[ks] = (has, val)
@@ -274,6 +274,18 @@ def h_option_unwrap(ex, name, args, path, depth, caller):
             yield panic(p, "called `Option::unwrap()` on a `None` value", caller.name)
 
 
+def h_option_branch(ex, name, args, path, depth, caller):
+    for p, is_some, payload in option_cases(ex, path, args[0]):
+        if is_some:
+            yield Outcome("return", p, EnumV("ControlFlow", "Continue", [payload]))
+        else:
+            yield Outcome("return", p, EnumV("ControlFlow", "Break", [NONE]))
+
+
+def h_option_from_residual(ex, name, args, path, depth, caller):
+    yield Outcome("return", path, NONE)
+
+
 def h_option_cloned(ex, name, args, path, depth, caller):
     for p, is_some, payload in option_cases(ex, path, args[0]):
         yield Outcome("return", p, some(deref(payload)) if is_some else NONE)
@@ -348,7 +360,7 @@ def h_typeid_eq(ex, name, args, path, depth, caller):
 
 def item_impl(ex, kind, method):
     mod = ITEM_MODULE[kind]
-    rx = re.compile(r"^compiler::%s::<impl at [^>]*>::%s$" % (mod, re.escape(method)))
+    rx = re.compile(r"^(?:compiler::)?%s::<impl at src/compiler/%s\.rs[^>]*>::%s$" % (mod, mod, re.escape(method)))
     for n, f in ex.fns.items():
         if rx.match(n) and f.args and norm_type(f.args[0][1]).split("::")[-1] == kind:
             return f
@@ -384,6 +396,21 @@ def h_dyn_dataitem(ex, name, args, path, depth, caller):
             continue
         f = item_impl(ex, item.kind, method)
         yield from ex.run(f, [item] + list(args[1:]), p, depth + 1)
+
+
+def h_static_dataitem(ex, name, args, path, depth, caller):
+    m = re.match(r"^<(\w+) as DataItem>::(\w+)$", name)
+    kind, method = m.group(1), m.group(2)
+    if kind not in ITEM_KINDS:
+        return NotImplemented
+    recv = deref(args[0])
+    if isinstance(recv, SymV):
+        recv = ItemV(kind, recv)
+    if method == "type_id":
+        return ex.ret(path, TypeIdV(kind))
+    if method == "as_any":
+        return ex.ret(path, recv)
+    return ex.run(item_impl(ex, kind, method), [recv] + list(args[1:]), path, depth + 1)
 
 
 def h_downcast_ref(ex, name, args, path, depth, caller):
@@ -504,6 +531,8 @@ def install(ex):
     add(r"^alloc::str::<impl str>::to_uppercase$", h_to_uppercase)
     add(r"^core::option::Option::<.*>::map::<.*>$", h_option_map)
     add(r"^core::option::Option::<.*>::unwrap$", h_option_unwrap)
+    add(r"^<(core::option::)?Option<.*> as Try>::branch$", h_option_branch)
+    add(r"^<(core::option::)?Option<.*> as FromResidual<.*>>::from_residual$", h_option_from_residual)
     add(r"^core::option::Option::<.*>::cloned$", h_option_cloned)
     add(r"^core::option::Option::<.*>::(is_some|is_none)$", h_option_is_some)
     add(r"^(core::result::)?Result::<.*>::unwrap$", h_result_unwrap)
@@ -514,6 +543,7 @@ def install(ex):
     add(r"^TypeId::of::<.*>$", h_typeid_of)
     add(r"^<TypeId as PartialEq>::eq$", h_typeid_eq)
     add(r"^<dyn DataItem as DataItem>::\w+$", h_dyn_dataitem)
+    add(r"^<\w+ as DataItem>::\w+$", h_static_dataitem)
     add(r"^<\(dyn Any \+ 'static\)>::downcast_ref::<.*>$", h_downcast_ref)
     add(r"^Rc::<.*>::new$", h_rc_new)
     add(r"^Money::(get_price|get_currency)$", h_money_get)
@@ -527,3 +557,270 @@ def install(ex):
     add(r"^core::num::<impl i64>::abs$", h_int_abs)
     add(r"^core::num::<impl i64>::is_negative$", h_int_is_negative)
     ex.handlers = H + ex.handlers
+    install_chrono(ex)
+
+
+# ------------------------------------------------------------------ chrono: dates, times, zones
+EPOCH_DAYS = 719162          # days from 0001-01-01 to 1970-01-01
+
+
+def days_from_civil_py(y, m, d):
+    y -= m <= 2
+    era = (y if y >= 0 else y - 399) // 400
+    yoe = y - era * 400
+    doy = (153 * (m + (-3 if m > 2 else 9)) + 2) // 5 + d - 1
+    doe = yoe * 365 + yoe // 4 - yoe // 100 + doy
+    return era * 146097 + doe - 719468 + EPOCH_DAYS
+
+
+CHRONO_MIN_DAYS = days_from_civil_py(-262143, 1, 1)
+CHRONO_MAX_DAYS = days_from_civil_py(262142, 12, 31)
+
+
+def days_from_civil(y, m, d):
+    """z3 Int terms; proleptic Gregorian; day 0 = 0001-01-01 (Howard Hinnant's algorithm, floor division)"""
+    y2 = z3.If(m <= 2, y - 1, y)
+    era = y2 / 400              # z3 Int division by a positive constant is floor division
+    yoe = y2 - era * 400
+    mp = z3.If(m > 2, m - 3, m + 9)
+    doy = (153 * mp + 2) / 5 + d - 1
+    doe = yoe * 365 + yoe / 4 - yoe / 100 + doy
+    return era * 146097 + doe - 719468 + EPOCH_DAYS
+
+
+def is_leap(y):
+    return z3.And(y % 4 == 0, z3.Or(y % 100 != 0, y % 400 == 0))
+
+
+def valid_ymd(y, m, d):
+    dim = z3.If(m == 2, z3.If(is_leap(y), 29, 28), z3.If(z3.Or(m == 4, m == 6, m == 9, m == 11), 30, 31))
+    return z3.And(y >= -262143, y <= 262142, m >= 1, m <= 12, d >= 1, d <= dim)
+
+
+class ZonedV:
+    """chrono::DateTime<Tz>: the UTC instant (DateTimeV) and the offset in seconds"""
+    __slots__ = ("utc", "off")
+
+    def __init__(self, utc, off):
+        self.utc, self.off = utc, off
+
+
+class OffsetV:
+    __slots__ = ("secs",)
+
+    def __init__(self, secs):
+        self.secs = secs
+
+
+def dt_from_total(total):
+    return DateTimeV(total / 86400, total % 86400)
+
+
+def dt_checked(ex, path, total, caller, what):
+    days = total / 86400
+    ok = z3.And(days >= CHRONO_MIN_DAYS, days <= CHRONO_MAX_DAYS)
+    bad = path.add(z3.Not(ok))
+    if ex.feasible(bad):
+        yield panic(bad, what + " overflowed", caller.name)
+    okp = path.add(ok)
+    if ex.feasible(okp):
+        yield Outcome("return", okp, dt_from_total(z3.simplify(total)))
+
+
+def h_ndt_addsub_td(ex, name, args, path, depth, caller):
+    a, d = deref(args[0]), deref(args[1])
+    sub = " as Sub<" in name
+    if isinstance(a, DateTimeV):
+        yield from dt_checked(ex, path, a.total() - d.secs if sub else a.total() + d.secs, caller, "`NaiveDateTime %s TimeDelta`" % ("-" if sub else "+"))
+        return
+    if isinstance(a, DateV):
+        # NaiveDate +- TimeDelta: whole days of the duration (truncated toward zero)
+        dd = ex.tdiv(d.secs, z3.IntVal(86400))
+        days = a.days - dd if sub else a.days + dd
+        ok = z3.And(days >= CHRONO_MIN_DAYS, days <= CHRONO_MAX_DAYS)
+        bad = path.add(z3.Not(ok))
+        if ex.feasible(bad):
+            yield panic(bad, "`NaiveDate %s TimeDelta` overflowed" % ("-" if sub else "+"), caller.name)
+        okp = path.add(ok)
+        if ex.feasible(okp):
+            yield Outcome("return", okp, DateV(z3.simplify(days)))
+        return
+    raise Unsupported("date arithmetic on %r" % (a,))
+
+
+def h_ndt_sub_ndt(ex, name, args, path, depth, caller):
+    a, b = deref(args[0]), deref(args[1])
+    if isinstance(a, DateTimeV):
+        yield Outcome("return", path, DurationV(a.total() - b.total()))
+    else:
+        yield Outcome("return", path, DurationV((a.days - b.days) * 86400))
+
+
+def h_timelike(ex, name, args, path, depth, caller):
+    a = deref(args[0])
+    secs = a.secs
+    fn = name.split("::")[-1]
+    t = {"num_seconds_from_midnight": secs, "hour": secs / 3600, "minute": (secs / 60) % 60, "second": secs % 60,
+         "nanosecond": z3.IntVal(0)}[fn]
+    yield Outcome("return", path, IntV(t, 32, False))
+
+
+def h_datelike(ex, name, args, path, depth, caller):
+    raise Unsupported("Datelike accessor %s (needs civil-from-days)" % name)
+
+
+def hms_checked(ex, path, h, m, s, caller, what, build):
+    ok = z3.And(h.t < 24, m.t < 60, s.t < 60)
+    bad = path.add(z3.Not(ok))
+    if ex.feasible(bad):
+        yield panic(bad, what + ": invalid time", caller.name)
+    okp = path.add(ok)
+    if ex.feasible(okp):
+        yield Outcome("return", okp, build(h.t * 3600 + m.t * 60 + s.t))
+
+
+def h_and_hms(ex, name, args, path, depth, caller):
+    d = deref(args[0])
+    yield from hms_checked(ex, path, args[1], args[2], args[3], caller, "NaiveDate::and_hms", lambda sod: DateTimeV(d.days, sod))
+
+
+def h_time_from_hms(ex, name, args, path, depth, caller):
+    yield from hms_checked(ex, path, args[0], args[1], args[2], caller, "NaiveTime::from_hms", lambda sod: TimeV(sod))
+
+
+def h_ndt_new(ex, name, args, path, depth, caller):
+    yield Outcome("return", path, DateTimeV(deref(args[0]).days, deref(args[1]).secs))
+
+
+def h_ndt_date(ex, name, args, path, depth, caller):
+    yield Outcome("return", path, DateV(deref(args[0]).days))
+
+
+def h_ndt_timestamp(ex, name, args, path, depth, caller):
+    a = deref(args[0])
+    yield Outcome("return", path, IntV(a.total() - EPOCH_DAYS * 86400, 64, True))
+
+
+def h_ndt_from_timestamp(ex, name, args, path, depth, caller):
+    secs = deref(args[0])
+    total = secs.t + EPOCH_DAYS * 86400
+    yield from dt_checked(ex, path, total, caller, "NaiveDateTime::from_timestamp")
+
+
+def h_utc_now(ex, name, args, path, depth, caller):
+    if not hasattr(ex, "_now"):
+        ex._now = ex.make_sym("now", "chrono::NaiveDateTime")
+    yield Outcome("return", path, ZonedV(ex._now, z3.IntVal(0)))
+
+
+def h_zoned_naive(ex, name, args, path, depth, caller):
+    z = deref(args[0])
+    if name.endswith("naive_utc"):
+        yield Outcome("return", path, z.utc)
+    else:
+        yield Outcome("return", path, dt_from_total(z.utc.total() + z.off))
+
+
+def h_fixed_east(ex, name, args, path, depth, caller):
+    s = deref(args[0])
+    ok = z3.And(s.t > -86400, s.t < 86400)
+    bad = path.add(z3.Not(ok))
+    if ex.feasible(bad):
+        yield panic(bad, "FixedOffset::east out of bounds", caller.name)
+    okp = path.add(ok)
+    if ex.feasible(okp):
+        yield Outcome("return", okp, OffsetV(s.t))
+
+
+def h_from_utc_datetime(ex, name, args, path, depth, caller):
+    tz, dt = deref(args[0]), deref(args[1])
+    off = tz.secs if isinstance(tz, OffsetV) else z3.IntVal(0)
+    yield Outcome("return", path, ZonedV(dt, off))
+
+
+def h_from_local_datetime(ex, name, args, path, depth, caller):
+    tz, dt = deref(args[0]), deref(args[1])
+    if isinstance(tz, OffsetV):
+        off = tz.secs
+    else:
+        # chrono::Local: the host's zone. Contract stub (DESIGN 2.3): a single offset within +-14 h;
+        # the ambiguous / nonexistent local time outcome is environment dependent and reported separately
+        if not hasattr(ex, "_host_off"):
+            ex._host_off = z3.Int("host_offset")
+            ex.inputs["host_offset"] = ex._host_off
+            ex.domain.append(z3.And(ex._host_off >= -14 * 3600, ex._host_off <= 14 * 3600))
+            ex.notes_env = "chrono::Local modelled as one arbitrary fixed offset"
+        off = ex._host_off
+    yield Outcome("return", path, EnumV("LocalResult", "Single", [ZonedV(dt_from_total(dt.total() - off), off)]))
+
+
+def h_localresult_unwrap(ex, name, args, path, depth, caller):
+    v = deref(args[0])
+    if isinstance(v, EnumV) and v.variant == "Single":
+        yield Outcome("return", path, v.f[0])
+    else:
+        yield panic(path, "No such local time", caller.name)
+
+
+class KeysIterV:
+    def __init__(self, fields, keys, idx=0):
+        self.fields, self.keys, self.idx = fields, keys, idx
+
+
+def h_fields_keys(ex, name, args, path, depth, caller):
+    m = get_map(ex, args[0])
+    if not isinstance(m, FieldsV):
+        raise Unsupported("keys() of a configuration map")
+    if m.keys_order is None:
+        raise Unsupported("fields.keys(): candidate key list not declared by the spec")
+    yield Outcome("return", path, KeysIterV(m, sorted(m.keys_order)))
+
+
+def h_keys_next(ex, name, args, path, depth, caller):
+    """Iterator::next(&mut keys): absent keys are skipped by forking on their presence flag; the advanced
+    iterator is written back to the caller's local"""
+    it = deref(args[0])
+
+    def go(p, i):
+        if i >= len(it.keys):
+            yield Outcome("return", p, NONE, writes={0: KeysIterV(it.fields, it.keys, i)})
+            return
+        k = it.keys[i]
+        has = it.fields.has_key(k)
+        p1 = p.add(has)
+        if ex.feasible(p1):
+            yield Outcome("return", p1, some(RefV(StrV(k))), writes={0: KeysIterV(it.fields, it.keys, i + 1)})
+        p0 = p.add(z3.Not(has))
+        if ex.feasible(p0):
+            yield from go(p0, i + 1)
+    yield from go(path, it.idx)
+
+
+def h_event_call(ex, name, args, path, depth, caller):
+    """a call recorded as an output event instead of being executed"""
+    short = strip_generics(name).split("::")[-1]
+    yield Outcome("return", path.event((short, [deref(a) for a in args])), UNIT)
+
+
+def install_chrono(ex):
+    def add(rx, fn):
+        ex.handlers.insert(0, (re.compile(rx), fn))
+
+    add(r"^<(chrono::)?(NaiveDateTime|NaiveDate) as (Add|Sub)<(chrono::)?(TimeDelta|Duration)>>::(add|sub)$", h_ndt_addsub_td)
+    add(r"^<(chrono::)?(NaiveDateTime|NaiveDate) as Sub>::sub$", h_ndt_sub_ndt)
+    add(r"^<(chrono::)?(NaiveDateTime|NaiveTime) as Timelike>::(num_seconds_from_midnight|hour|minute|second|nanosecond)$", h_timelike)
+    add(r"^(chrono::)?NaiveDate::and_hms$", h_and_hms)
+    add(r"^(chrono::)?NaiveTime::from_hms$", h_time_from_hms)
+    add(r"^(chrono::)?NaiveDateTime::new$", h_ndt_new)
+    add(r"^(chrono::)?NaiveDateTime::date$", h_ndt_date)
+    add(r"^(chrono::)?NaiveDateTime::timestamp$", h_ndt_timestamp)
+    add(r"^(chrono::)?NaiveDateTime::from_timestamp$", h_ndt_from_timestamp)
+    add(r"^(chrono::)?Utc::now$", h_utc_now)
+    add(r"^DateTime::<.*>::(naive_local|naive_utc)$", h_zoned_naive)
+    add(r"^(chrono::)?FixedOffset::east$", h_fixed_east)
+    add(r"^<(FixedOffset|Utc) as TimeZone>::from_utc_datetime$", h_from_utc_datetime)
+    add(r"^<(FixedOffset|Local) as TimeZone>::from_local_datetime$", h_from_local_datetime)
+    add(r"^LocalResult::<.*>::unwrap$", h_localresult_unwrap)
+    add(r"^BTreeMap::<alloc::string::String, Rc<TokenInfo>>::keys$", h_fields_keys)
+    add(r"^<alloc::collections::btree_map::Keys<.*> as IntoIterator>::into_iter$", h_identity_keep)
+    add(r"^<alloc::collections::btree_map::Keys<.*> as Iterator>::next$", h_keys_next)
